@@ -870,6 +870,28 @@ Proof.
   - vm_compute. repeat split. left. reflexivity.
 Qed.
 
+(* An observation, not a defect: a list that never holds an element twice cannot support the swap idiom
+   `L[i], L[j] = L[j], L[i]` (nor random.shuffle, which is made of such swaps).  The first assignment MOVES the member and the
+   replaced element leaves, so the list is one shorter -- consistently: the leaver has no owner -- and the second assignment
+   finds its index out of range.  One slice assignment of a permutation reorders the list: nothing leaves, nothing enters. *)
+Example C16_swap_idiom_observation :
+  let h := [ONew 1 KIR 101 None 0 0 0 PNone; ONew 3 KMod 103 None 0 0 0 PNone; ONew 4 KMod 104 None 0 0 0 PNone;
+            ONew 5 KMod 105 None 0 0 0 PNone; OModExtend 1 [3; 4; 5]] in
+  let w := fst (run_guarded w0 [] h) in
+  let known := snd (run_guarded w0 [] h) in
+  let w1 := step' w (OModSetItem 1 0 5) in
+  reachable_k w known /\ kids w 1 = [3; 4; 5] /\
+  op_okb w known (OModSetItem 1 0 5) = true /\ kids w1 1 = [5; 4] /\ map (par w1) [3; 4; 5] = [None; Some 1; Some 1] /\
+  op_okb w1 known (OModSetItem 1 2 3) = true /\ step w1 (OModSetItem 1 2 3) = Err EIndex /\
+  (let w2 := step' w (OModSetSlice 1 None None [5; 4; 3]) in
+   kids w2 1 = [5; 4; 3] /\ map (par w2) [3; 4; 5] = [Some 1; Some 1; Some 1]) /\
+  (let w3 := step' w (OModSetExt 1 None None (-1) [3; 4; 5]) in kids w3 1 = [5; 4; 3]).
+Proof.
+  cbv zeta. split.
+  - eexists. symmetry. apply surjective_pairing.
+  - vm_compute. repeat split; reflexivity.
+Qed.
+
 Print Assumptions C16_set_add.
 Print Assumptions C16_set_discard.
 Print Assumptions C16_set_remove.
@@ -928,3 +950,4 @@ Print Assumptions C16_example.
 Print Assumptions C16_same_list_assignment_example.
 Print Assumptions C16_modlist_setslice_extended_example.
 Print Assumptions C16_modlist_insert_member_example.
+Print Assumptions C16_swap_idiom_observation.
